@@ -16,7 +16,7 @@ EXPLANATION = (
 ASSUMPTIONS = ["pika::memory::intrusive_ptr copy/move/assign only affect the token reference count (intrusive_ptr_add_ref/release)",
                "std::atomic operations are the only accesses to state_"]
 THOROUGH_CONFIGS = [["-UNDEBUG", "-DPIKA_DEBUG"]]
-FLOORS = {"C14.R1": 6, "C14.R2": 6, "C14.R3": 5, "C14.R4": 8, "C14.R5": 6, "C14.R6": 4}
+FLOORS = {"C14.R1": 6, "C14.R2": 6, "C14.R3": 5, "C14.R4": 8, "C14.R5": 6, "C14.R6": 4, "C14.R7": 8}
 
 SS = "pika::detail::stop_state"
 TRY_GUARDS = ("pika::detail::scoped_lock_if_not_stopped", "pika::detail::scoped_lock_and_request_stop")
@@ -43,6 +43,7 @@ def run(rep, tier):
     rep.rule("C14.R4", "K2/K6: callbacks run unlocked after being unlinked; finished flag published with release; execute() only from the three known sites; remove_callback waits unless on the signalling thread")
     rep.rule("C14.R5", "K8: stop_source special members keep the source count balanced")
     rep.rule("C14.R6", "K9: stop_callback is pinned; state word lock-free")
+    rep.rule("C14.R7", "K5 (who-may-write, whole library): the packed word stop_state::state_ (token count | stop bit | source count | lock bit) is modified only by atomic read-modify-write operations outside the constructor; the lock bit is released with >= release")
 
     F = facts(rep, lib("synchronization", "src/stop_token.cpp"),
               [r"^pika::detail::stop_state::", r"^pika::detail::stop_callback_base::", r"^pika::stop_source::",
@@ -351,3 +352,44 @@ def run(rep, tier):
     n, failed = witness(rep, "C14.R6", driver("../witness/C14.cpp"))
     for _ in range(n - failed):
         rep.ok("C14.R6", "witness:C14.cpp", "static_assert holds")
+
+    # ---- R7: every writer of the packed state word, anywhere in the library
+    from .common import who_references
+    WF, cpps, hdrs = who_references(rep, r"^pika::detail::stop_state::state_$", "state_", subdir="libs/pika/synchronization")
+    RMW = ("compare_exchange_weak", "compare_exchange_strong", "fetch_add", "fetch_sub", "fetch_or", "fetch_and", "fetch_xor")
+    PLAIN = ("store", "exchange", "operator=", "operator|=", "operator&=", "operator+=", "operator-=", "operator++", "operator--")
+    seen = set()
+    nmod = 0
+    for W in WF:
+        for f in W.fns:
+            if (f.qname, f.loc) in seen:
+                continue
+            seen.add((f.qname, f.loc))
+            for b, i, ev in f.all_events():
+                recv = ev.get("recv") if ev.get("k") == "call" else None
+                is_word = False
+                if recv is not None:
+                    r_ = strip(recv)
+                    is_word = isinstance(r_, dict) and r_.get("k") == "mem" and r_.get("name") == "state_" and str(r_.get("rec", "")) == "pika::detail::stop_state"
+                if ev.get("k") == "write":
+                    l_ = strip(ev["lhs"])
+                    if isinstance(l_, dict) and l_.get("k") == "mem" and l_.get("name") == "state_" and str(l_.get("rec", "")) == "pika::detail::stop_state":
+                        nmod += 1
+                        rep.bad("C14.R7", f, loc_of(ev), "plain-write:" + f.qname.rsplit("::", 1)[-1], "%s assigns the packed stop-state word directly: concurrent reference-count / flag updates of other threads are lost" % f.qname)
+                    continue
+                if not is_word:
+                    continue
+                cs = callee_short(ev)
+                if cs in RMW:
+                    nmod += 1
+                    mo = (ev.get("mo") or [""])[0]
+                    if cs == "fetch_sub" and "locked_flag" in T(ev["args"][0]) and mo not in ("memory_order_release", "memory_order_acq_rel", "memory_order_seq_cst"):
+                        rep.bad("C14.R7", f, loc_of(ev), "unlock-order", "the lock bit is released with %s: writes made under the lock (callback list) are not published to the next owner" % mo)
+                    else:
+                        rep.ok("C14.R7", f, "%s modifies state_ by %s (%s)" % (f.qname.rsplit("::", 1)[-1], cs, mo))
+                elif cs in PLAIN and f.kind != "ctor":
+                    nmod += 1
+                    rep.bad("C14.R7", f, loc_of(ev), "plain-write:" + f.qname.rsplit("::", 1)[-1], "%s modifies the packed stop-state word with %s (not a read-modify-write): a concurrent "
+                            "reference-count change, stop request or lock acquisition of another thread is overwritten" % (f.qname, cs))
+    if nmod < 8:
+        raise AnalysisBroken("C14.R7: only %d modifications of stop_state::state_ found (files spelling it: %d)" % (nmod, len(cpps) + len(hdrs)))
